@@ -155,3 +155,86 @@ Definition pk_t2 : value := VDict [(s "__a", I 2)].
 Lemma refuted_private_keys :
   rt hatom_ex no_ops ex_cfg conv_none false false pk_t1 pk_t2 = (pk_t1, 0) /\ veqb pk_t1 pk_t2 = false.
 Proof. vm_compute. split; reflexivity. Qed.
+
+(* ---- a chain through dicts and sets, started from a reordered copy ---- *)
+Definition cv0 : value := VDict [(s "a", VSet [AInt 1; AInt 2]); (s "b", VDict [(s "x", I 1); (s "y", I 2)])].
+Definition cv1 : value := VDict [(s "a", VSet [AInt 2; AInt 3]); (s "b", VDict [(s "y", I 7); (s "z", I 5)])].
+Definition cv2 : value := VDict [(s "b", VDict [(s "z", I 5); (s "y", I 7); (s "w", VFrozen [AInt 1])]); (s "c", Sv "q")].
+Definition cv_start : value := VDict [(s "b", VDict [(s "y", I 2); (s "x", I 1)]); (s "a", VSet [AInt 2; AInt 1])].
+
+Lemma okb_all_conv_none a b : okb_all conv_none false false a b.
+Proof. intros v _ _. apply okb_of_tc. intros v0 t1 t2. right. intros a' H. discriminate H. Qed.
+
+Ltac orders_tac d :=
+  unfold orders_ok_at;
+  repeat match goal with |- context [d_irem d] => let r := eval vm_compute in (d_irem d) in change (d_irem d) with r end;
+  repeat match goal with |- context [d_drem d] => let r := eval vm_compute in (d_drem d) in change (d_drem d) with r end;
+  repeat match goal with |- context [d_iadd d] => let r := eval vm_compute in (d_iadd d) in change (d_iadd d) with r end;
+  repeat split; try apply Permutation_rev; try apply Permutation_refl; cbn [rev app map];
+    repeat constructor; apply not_idx_lt; reflexivity.
+
+Ltac opsv_dict_tac :=
+  rewrite opsv_dict_eq; cbn [opsv_dict];
+  repeat match goal with |- context [assoc ?k ?l] => let r := eval vm_compute in (assoc k l) in change (assoc k l) with r end;
+  cbn beta iota; conj; try exact Logic.I.
+
+Lemma cv_step01 : step_ok hatom_ex (fun _ _ => []) no_ops ex_cfg conv_none false false (@rev _) (fun l => l) cv0 cv1.
+Proof.
+  split; [apply (guardsb_sound ex_cfg conv_none false false conv_none_typed); vm_compute; reflexivity|]. split.
+  - unfold cv0, cv1. opsv_dict_tac. opsv_dict_tac.
+  - orders_tac (delta_of hatom_ex (fun _ _ => []) no_ops ex_cfg conv_none false false cv0 cv1).
+Qed.
+
+Lemma cv_step12 : step_ok hatom_ex (fun _ _ => []) no_ops ex_cfg conv_none false false (@rev _) (fun l => l) cv1 cv2.
+Proof.
+  split; [apply (guardsb_sound ex_cfg conv_none false false conv_none_typed); vm_compute; reflexivity|]. split.
+  - unfold cv1, cv2. opsv_dict_tac. opsv_dict_tac.
+  - orders_tac (delta_of hatom_ex (fun _ _ => []) no_ops ex_cfg conv_none false false cv1 cv2).
+Qed.
+
+Lemma cv_chain_ok : chain_ok hatom_ex (fun _ _ => []) no_ops ex_cfg conv_none false false (@rev _) (fun l => l) cv0 [cv1; cv2].
+Proof. exact (conj cv_step01 (conj cv_step12 Logic.I)). Qed.
+
+Lemma cv_chain_okv : chain_okv conv_none false false cv0 [cv1; cv2].
+Proof. exact (conj (okb_all_conv_none cv0 cv1) (conj (okb_all_conv_none cv1 cv2) Logic.I)). Qed.
+
+Lemma cv_start_ok : wf cv_start = true /\ veqb cv_start cv0 = true /\ value_eqb cv_start cv0 = false /\ ordfree cv0 = false.
+Proof. vm_compute. repeat split; reflexivity. Qed.
+
+Lemma cv_chain :
+  Forall2 (fun res t => snd res = 0 /\ veqb (fst res) t = true)
+    (chain_from hatom_ex (fun _ _ => []) no_ops ex_cfg conv_none false false (@rev _) (fun l => l) cv_start cv0 [cv1; cv2])
+    [cv1; cv2].
+Proof.
+  apply (chain_veq hatom_ex (fun _ _ => []) no_ops ex_cfg conv_none false false (@rev _) (fun l => l) hatom_ex_inj conv_none_typed
+           [cv1; cv2] cv_start cv0 cv_chain_ok cv_chain_okv); apply cv_start_ok.
+Qed.
+
+(* ---- without [okb_all]: the constructor call of a type change acts on the current value ----
+   {'k': {'a':1,'b':2}} -> {'k': ['a','b']}: list(old) == new, the values are omitted; from
+   the equal dict {'k': {'b':2,'a':1}} the delta builds {'k': ['b','a']} *)
+Definition rb_t1 : value := VDict [(s "k", VDict [(s "a", I 1); (s "b", I 2)])].
+Definition rb_t2 : value := VDict [(s "k", VList [Sv "a"; Sv "b"])].
+Definition rb_v : value := VDict [(s "k", VDict [(s "b", I 2); (s "a", I 1)])].
+Definition rb_res : value := VDict [(s "k", VList [Sv "b"; Sv "a"])].
+(* list(dict) = the keys in insertion order *)
+Definition keys_conv (t : ty) (v : value) : option value :=
+  match t, v with TList, VDict kvs => Some (VList (map (fun kv => VAtom (fst kv)) kvs)) | _, _ => None end.
+Lemma keys_conv_typed ty0 v v' : keys_conv ty0 v = Some v' -> type_of v' = ty0.
+Proof. unfold keys_conv. destruct ty0; try discriminate. destruct v; try discriminate. intros H. inversion H. reflexivity. Qed.
+
+Lemma rb_guards : guards ex_cfg keys_conv false false rb_t1 rb_t2.
+Proof.
+  split; [reflexivity|]. split; [reflexivity|]. split; [apply alias_freeb_sound; vm_compute; reflexivity|]. split.
+  - unfold rb_t1, rb_t2. rewrite okp_dict_eq. cbn [okp_dict].
+    match goal with |- context [assoc ?k ?l] => let r := eval vm_compute in (assoc k l) in change (assoc k l) with r end.
+    cbn beta iota. split; [|exact Logic.I]. cbn. right. intros v' H _. vm_compute in H. inversion H. vm_compute. reflexivity.
+  - right. vm_compute. split; reflexivity.
+Qed.
+
+Lemma refuted_rebuild :
+  wf rb_v = true /\ veqb rb_v rb_t1 = true /\
+  apply keys_conv (@rev _) (fun l => l) (delta_of hatom_ex (fun _ _ => []) no_ops ex_cfg keys_conv false false rb_t1 rb_t2) rb_t1 = (rb_t2, 0) /\
+  apply keys_conv (@rev _) (fun l => l) (delta_of hatom_ex (fun _ _ => []) no_ops ex_cfg keys_conv false false rb_t1 rb_t2) rb_v = (rb_res, 0) /\
+  veqb rb_res rb_t2 = false.
+Proof. vm_compute. repeat split; reflexivity. Qed.
